@@ -96,6 +96,18 @@ def gen_cases(rng, tier):
 							s = build(c)[0]
 							c['cuts'] = [[]] + ([sorted(set(rng.randrange(1, len(s)) for _ in range(3)))] if tier == 'thorough' or rng.random() < .3 else [])
 							cases.append(c)
+	# sequences on ONE machine: what a message announces (Trailer) or how it is framed must not carry over to the next message
+	def fm(te, cl, ann, tf, payload=b'abcde'):
+		return {'k': 'framing', 'ver': '1.1', 'cl': cl, 'te': te, 'tr_announce': ann, 'tr_fields': [list(t) for t in tf], 'payload': payload.hex()}
+	firsts = [fm('chunked', None, 'X-T', [('X-T', 'v')]), fm('chunked', None, 'X-T, Y', [('Y', '1')]), fm(None, 'right', None, []), fm('chunked', None, None, [])]
+	seconds = [(fm('chunked', None, None, [('X-T', 'w')]), 400), (fm('chunked', None, 'Y', [('X-T', 'w')]), 400), (fm('chunked', None, 'X-T', [('X-T', 'w')]), None),
+		(fm(None, 'right', None, []), None), (fm(None, None, None, [], b''), None), (fm('chunked', None, None, []), None)]
+	for kind in ('server', 'client'):
+		for a in firsts:
+			for b, exp in seconds:
+				s = b''.join(build(dict(m, kind=kind))[0] for m in (a, b))
+				cuts = [[], list(range(1, len(s)))] if tier == 'thorough' or rng.random() < .4 else [[]]
+				cases.append({'k': 'seq', 'kind': kind, 'msgs': [a, b], 'expect2': exp, 'cuts': cuts})
 	# direct validation of the integer and header-block sub-models
 	from harness.coqfmt import X
 	for _ in range(4000 if tier == 'thorough' else 700):
@@ -125,6 +137,8 @@ def gen_cases(rng, tier):
 
 
 def _stream(c):
+	if c['k'] == 'seq':
+		return b''.join(build(dict(m, kind=c['kind']))[0] for m in c['msgs'])
 	return build(c)[0] if c['k'] == 'framing' else bytes.fromhex(c['s'])
 
 
@@ -194,6 +208,13 @@ def oracle(c, o):
 				f = _check_msg(m)
 				if f:
 					return f
+		if c['k'] == 'seq':
+			d, e, left = pc.summary(r)
+			want = c['expect2']
+			if want is None and (e is not None or len(d) != 2):
+				return 'two valid messages on one machine: %d delivered, error %r (each alone is delivered)' % (len(d), e)
+			if want is not None and (e != want or len(d) > 1):   # (the call that raises hands out nothing: 0 or 1 delivered)
+				return 'second message on the same machine must be refused with %r (its trailer field is not announced by ITS Trailer field): %d delivered, error %r' % (want, len(d), e)
 		if c['k'] == 'framing':
 			s, hnames, chunked_wire = build(c)
 			d, e, left = pc.summary(r)
@@ -233,6 +254,8 @@ def classify(c, o, fail):
 def nontrivial(c, o):
 	if c['k'] in ('int16', 'int10', 'hparse'):
 		return (c['k'], c['d']) if o.get('r') is not None else None
+	if c['k'] == 'seq':
+		return ('seq', c['kind'], repr(c['msgs']))
 	if c['k'] == 'framing':
 		return (c['kind'], c['ver'], c['cl'], c['te'], c['tr_announce'], repr(c['tr_fields']), c['payload'])
 	d, e, left = pc.summary(o['runs'][0])
